@@ -179,8 +179,9 @@ package meta
 //@   ensures result >= 1
 
 // ---- C19: anchored-literal fast path (^prefix.*class+suffix$) ----------------------------------------------------
-// alSplit(k): the last k bytes before the suffix are the class run, what is left of the middle is the wildcard.
-//@ opaque spec func alSplit(in []byte, pl int, sl int, wmin int, cmin int, hasT bool, tab [256]bool, notNL bool, k int) bool = cmin <= k && (!hasT ==> k == 0) && pl + wmin <= len(in) - sl - k && (forall j :: len(in) - sl - k <= j && j < len(in) - sl ==> tab[in[j]]) && (notNL ==> (forall j :: pl <= j && j < len(in) - sl - k ==> in[j] != 10))
+// alSplit(k): the last k bytes before the suffix are the class run, what is left of the middle is the wildcard;
+// `.+` needs one whole character (the width of the first one, an invalid byte counting as one), not one byte.
+//@ opaque spec func alSplit(in []byte, pl int, sl int, wmin int, cmin int, hasT bool, tab [256]bool, notNL bool, k int) bool = cmin <= k && (!hasT ==> k == 0) && pl + ite(wmin == 0, 0, ite(runeW(in[pl:len(in)-sl], 0) >= 1, runeW(in[pl:len(in)-sl], 0), 1)) <= len(in) - sl - k && (forall j :: len(in) - sl - k <= j && j < len(in) - sl ==> tab[in[j]]) && (notNL ==> (forall j :: pl <= j && j < len(in) - sl - k ==> in[j] != 10))
 //@ spec func alInfoOK(info *AnchoredLiteralInfo) bool = info != nil && 0 <= info.WildcardMin && info.WildcardMin <= 1 && 0 <= info.CharClassMin && info.CharClassMin <= 1 && (info.CharClassMin == 1 <==> info.CharClassTable != nil) && info.MinLength == len(info.Prefix) + info.WildcardMin + info.CharClassMin + len(info.Suffix)
 //@ spec func alEnds(in []byte, info *AnchoredLiteralInfo) bool = len(in) >= len(info.Prefix) + len(info.Suffix) && (forall i :: 0 <= i && i < len(info.Prefix) ==> in[i] == info.Prefix[i]) && (forall i :: 0 <= i && i < len(info.Suffix) ==> in[len(in) - len(info.Suffix) + i] == info.Suffix[i])
 //@ spec func alK(in []byte, info *AnchoredLiteralInfo, k int) bool = alSplit(in, len(info.Prefix), len(info.Suffix), info.WildcardMin, info.CharClassMin, info.CharClassTable != nil, *info.CharClassTable, info.WildcardNotNL, k)
@@ -199,7 +200,7 @@ package meta
 //@   loop 2: exit info.CharClassTable == nil && !info.WildcardNotNL ==> alK(input, info, 0)
 //@   loop 3: exit !info.WildcardNotNL && found >= info.CharClassMin ==> alK(input, info, found)
 //@   after call 1: lastcall < 0 ==> alK(input, info, 0)
-//@   after call 2: lastcall < 0 ==> alK(input, info, found)
+//@   after call 3: lastcall < 0 ==> alK(input, info, found)
 
 // UTF-8 encoding as arithmetic (the definition, RFC 3629): width and j-th byte of the encoding of r
 //@ spec func u8w(r int) int = ite(r < 128, 1, ite(r < 2048, 2, ite(r < 65536, 3, 4)))
